@@ -132,7 +132,18 @@ def check_stream(kind, p, X, mode="MT+", eps=0.0, veto=None, ylab=None, centre_a
     return out
 
 
-def check_wrapped_stream(kind, p, X, wrap, wp):
+class BitVeto:
+    """match_reset_func answering bits[k mod len] at its k-th call (False = veto the category)"""
+
+    def __init__(self, bits):
+        self.bits, self.n = list(bits), 0
+
+    def __call__(self, *a, **kw):
+        self.n += 1
+        return bool(self.bits[self.n % len(self.bits)])
+
+
+def check_wrapped_stream(kind, p, X, wrap, wp, sup=None):
     """monotonicity and size-bound clauses for the base module of DualVigilanceART / TopoART (the quantifier names
     them): present X one row at a time through the wrapper and look at the base module's weights"""
     import artlib
@@ -144,11 +155,15 @@ def check_wrapped_stream(kind, p, X, wrap, wp):
                else artlib.TopoART(base, beta_lower=wp["beta_lower"], tau=wp["tau"], phi=wp["phi"]))
     rho = float(p["rho"])
     d = X.shape[1]
+    veto = BitVeto(sup["bits"]) if sup else None
     for i, x in enumerate(X):
         Wb = [np.array(w, dtype=float).copy() for w in base.W] if hasattr(base, "W") else []
         try:
             with np.errstate(all="ignore"), contextlib.redirect_stdout(io.StringIO()):
-                top.partial_fit(x.reshape(1, -1))
+                if sup:
+                    top.partial_fit(x.reshape(1, -1), match_reset_func=veto, match_tracking=sup["mode"], epsilon=sup["eps"])
+                else:
+                    top.partial_fit(x.reshape(1, -1))
         except Exception:
             return out
         Wa = [np.array(w, dtype=float) for w in base.W]
@@ -201,10 +216,26 @@ def wrapped_oracle(rng, n):
             wp["lb"] = rng.uniform(0.0, p["rho"] * 0.99)
             raw = np.array([[rng.random() for _ in range(d)] for _ in range(rng.randrange(5, 60))])
             X = np.hstack([raw, 1.0 - raw])
+        sup = None
+        if rng.random() < 0.4:
+            # a reset function and every match-tracking mode: the bounds are on the configured vigilance whatever the
+            # supervisor vetoes (a veto may only make the search stricter, MT-/MT0/MT~ leave it at most as strict)
+            sup = {"bits": [rng.random() < 0.55 for _ in range(11)], "mode": rng.choice(["MT+", "MT+", "MT1", "MT~"]),
+                   "eps": rng.choice([0.0, 1e-10, 1e-3, 0.05])}
+        if rng.random() < 0.12:
+            # TopoART over Fuzzy ART on continuous data with a reset function and MT+: the search may raise the vigilance,
+            # never lower it below the configured one
+            kind, wrap = "Fuzzy", "Topo"
+            d = rng.choice([1, 2, 3])
+            p = {"rho": rng.uniform(0.3, 0.95), "alpha": rng.choice([0.0, 1e-3, 0.5]), "beta": rng.choice([1.0, 1.0, 0.5])}
+            wp["beta_lower"] = p["beta"] * rng.choice([0.5, 1.0])
+            raw = np.array([[rng.random() for _ in range(d)] for _ in range(rng.randrange(5, 40))])
+            X = np.hstack([raw, 1.0 - raw])
+            sup = {"bits": [rng.random() < 0.55 for _ in range(11)], "mode": "MT+", "eps": rng.choice([0.0, 1e-10, 1e-3, 0.05])}
         cnt += 1
-        for sig, text, i in check_wrapped_stream(kind, p, X, wrap, wp):
+        for sig, text, i in check_wrapped_stream(kind, p, X, wrap, wp, sup):
             fails.append({"signature": sig, "text": text,
-                          "replay": {"kind": kind, "wrapper": wrap, "wrapper_params": wp,
+                          "replay": {"kind": kind, "wrapper": wrap, "wrapper_params": wp, "supervisor": sup,
                                      "params": {k: (np.asarray(v).tolist() if isinstance(v, np.ndarray) else v) for k, v in p.items()},
                                      "X": X.tolist(), "failing_sample": i}})
     return fails, cnt
